@@ -259,6 +259,9 @@ def tasks(tier, seed):
                                                         n_unlabelled=3, ref_encoding='csr'), config=dict()))
     compose.append(dict(seed=int(seed) + 63, world=dict(taxonomy='d3_chain', n_query=8, n_ref_files=3, n_processors=2,
                                                         cells_per_leaf={'c2': 2}), config=dict()))
+    # more than 255 genes: gene indices no longer fit the narrowest integer type the marker files use
+    compose.append(dict(seed=int(seed) + 64, world=dict(taxonomy='d3_bal', n_query=8, n_genes=300, n_per_utility=5,
+                                                        ref_encoding='csc', encoding='csr'), config=dict(csv=True)))
     if not quick:
         for r in range(12):
             compose.append(dict(seed=int(seed) + 100 + r, world=dict(
@@ -278,6 +281,8 @@ def tasks(tier, seed):
             extra = dict(n_ref_files=3, n_processors=1)
         elif s == 'd3_chain':
             extra = dict(n_ref_files=2, n_processors=1, cells_per_leaf={'c2': 2})
+        elif s == 'd2_single_child':
+            extra = dict(n_genes=290)
         cent.append(dict(seed=int(seed) + i, world=dict(taxonomy=s, encoding=encs[(i + seed) % 3], n_query=6,
                                                         n_unlabelled=(5 if i % 2 == 0 else 0), **extra),
                          cases=c01.covering_sample(factors, 8 if quick else 30, rng)))
